@@ -38,7 +38,9 @@ pub const IMMEDIATE_ACK_EVERY_RMSS: usize = 2;
 pub const SYNACK_RESEND_INTERNAL: Duration = Duration::from_millis(200);
 
 // u16 SeqNrs wrap around. If they are too far apart, this is used to detect if they wrapped or not.
-pub const WRAP_TOLERANCE: u16 = 1024;
+// Half the sequence space (serial number arithmetic): the default 1 MiB windows admit ~2000
+// minimum-size segments in flight, so a smaller tolerance misorders them across the wrap.
+pub const WRAP_TOLERANCE: u16 = u16::MAX / 2;
 
 pub const CONGESTION_TRACING_LOG_LEVEL: Level = Level::DEBUG;
 pub const RTTE_TRACING_LOG_LEVEL: Level = Level::TRACE;
